@@ -47,10 +47,23 @@ CLAIMS = {
                      "And at the level of the executable driver (TokIR/ChunkExec.v): two chunkings through drive_flat - feed loops with "
                      "script injection, then end() - reach the same final machine and end() result whenever every feed call ended "
                      "regularly, byte order mark handling included (except a first chunk that is U+FEFF alone). "
-                     "Not proved, tied by differential runs in the check: for exact_errors = false the chunked-queue "
-                     "interpreter with bulk reads agrees with the reference semantics up to merging of adjacent character "
-                     "tokens and the fast path's missing per-character errors; the Rust "
-                     "tokenizer agrees with that interpreter. Tree-builder half (that splitting a character token does not change the "
+                     "Also proved (TokIR/BulkSim.v, generic in the queue and the table; Inst/InstBulk.v decides its two table "
+                     "conditions on the regenerated html table): for exact_errors = false - the tokenizer's default mode - the "
+                     "chunked-queue interpreter with bulk reads (runs up to the end of the first buffer, the SIMD scan of the "
+                     "data state with its own newline count, stale current_char, no bad-character errors on the fast path) is in "
+                     "a stuttering simulation with the reference interpreter (flat queue, one character at a time, exact_errors = "
+                     "true), whole driver included (feed, BOM, script injection, encoding suspension, end()): for every list of "
+                     "chunks, sink script, injected text and start machine, if the default-mode run ends without fuel exhaustion "
+                     "then the reference run with any fuel from some bound on reports the same results, unread input, consumed "
+                     "count, configuration up to current_char, and the same tokens up to obs = parse errors dropped, each "
+                     "maximal group of adjacent character tokens merged into one carrying the line and consumed-count of its "
+                     "last member, all other tokens kept with their lines (C03_default_mode_against_reference, "
+                     "C03_default_mode_is_reference_up_to_obs); composed with the chunk theorem: in default mode the observable "
+                     "token stream and the end() result do not depend on the chunking "
+                     "(C03_default_mode_chunking_independent_obs). html only; the hypothesis 'no fuel exhaustion' stays. "
+                     "Not proved, tied by differential runs in the check: the Rust "
+                     "tokenizer agrees with that interpreter (the reference_leg comparison interpreter-vs-interpreter is now "
+                     "redundant with the theorem and kept as a regression test). Tree-builder half (that splitting a character token does not change the "
                      "tree), over the tree-builder model of C02: proved for the 'text' insertion mode only "
                      "(C03_tree_text_mode_split_partial: one character token or two give the same answers, states equal up to "
                      "the event log - leading-LF dropping included - and the same abstract DOM, because DomSpec merges adjacent "
@@ -70,9 +83,21 @@ CLAIMS = {
                 text="PARTIAL proof. Props/C08.v proves on the regenerated tables that every bulk-read state's character set contains "
                      "every character the slow path treats specially and that its default arm is the per-character form of the run "
                      "arm (with a proved soundness lemma for the arm-chain check), and that the SIMD helper's hard-wired sets agree "
-                     "with the scalar path. Option independence of whole runs is checked metamorphically on the implementation "
-                     "(exact_errors, discard_bom, drop_doctype; tokens and trees).",
-                note=TOK_NOTE, tech="reflective Coq checks on char sets (fast path = slow path) + option metamorphic oracle"),
+                     "with the scalar path. For exact_errors and the html tokenizer whole runs are proved too (TokIR/BulkSim.v, "
+                     "C08_exact_errors_changes_only_errors_and_text_cuts): the chunked-queue interpreter with exact_errors = false "
+                     "(bulk reads, SIMD scan, no current_char update, no bad-character errors) and the same interpreter with "
+                     "exact_errors = true, from the same machine, for every list of chunks, sink script, injected text: if the "
+                     "default-mode run ends without fuel exhaustion, the exact-mode run with any large enough fuel reports the same "
+                     "results, unread input, consumed count, configuration up to current_char, and the same tokens up to dropping "
+                     "parse errors and merging adjacent character tokens (the merged token keeps the line of its last member, every "
+                     "other token keeps its line) - a stuttering simulation (one bulk step on a run r = |r| single-character steps) "
+                     "under two decidable table conditions decided on the regenerated table (C08_bulk_table_conditions: sets contain "
+                     "CR, LF, NUL and every character the per-character arm singles out, the default per-character arm is the run "
+                     "arm for one character up to Error commands, also w.r.t. the SIMD stop set, which lies inside the first-character "
+                     "guard and counts only LF; arms reconsume only after reading; EOF arms do not read). Still tested only: the "
+                     "same for xml5ever, the other options (discard_bom, drop_doctype, profile), the tree-builder level, and Rust "
+                     "vs interpreter: metamorphic option oracle on the implementation (tokens and trees).",
+                note=TOK_NOTE, tech="reflective Coq checks on char sets + Coq stuttering simulation fast path vs slow path (whole driver, html) + option metamorphic oracle"),
     "C09": dict(cat="proof", ref="DESIGN.md section 5 C09",
                 text="PARTIAL proof. Props/C09.v proves the law itself for ALL inputs on the interpreter over the regenerated html "
                      "table (TokIR/LineInv.v, generic in the table; Inst/InstLine.v): reference semantics (html flavour, exact_errors = "
